@@ -340,8 +340,7 @@ func (sd *SessionData) Save(r *http.Request, w http.ResponseWriter) error {
 // It clears the values map of the main, access, and refresh sessions, sets their MaxAge to -1
 // to expire the cookies immediately, and clears any associated token chunk cookies.
 // If a ResponseWriter is provided, it attempts to save the expired sessions to send the
-// expiring Set-Cookie headers. Finally, it clears internal fields and returns the SessionData
-// object to the pool.
+// expiring Set-Cookie headers. Finally, it clears internal per-request fields.
 //
 // Parameters:
 //   - r: The HTTP request (required by the underlying session store).
@@ -377,8 +376,9 @@ func (sd *SessionData) Clear(r *http.Request, w http.ResponseWriter) error {
 	// Clear transient per-request fields.
 	sd.request = nil
 
-	// Return session to pool.
-	sd.manager.sessionPool.Put(sd)
+	// The object is NOT returned to the pool here: callers keep using it after
+	// Clear (they set new values and Save), and a pooled object can be handed
+	// to a concurrent request at any moment.
 
 	return err
 }
